@@ -2,7 +2,7 @@
    Only theorem statements: each is closed by [exact] of a lemma proved in C28/LoggerQProofs.v,
    C28/OracleLink.v, C28/OrigWitness.v or C28/MidWitness.v and followed by Print Assumptions.
 
-   Vocabulary.  [run sched (init m ps)]: the interleaving model of C28/LoggerQ.v (the code after
+   Vocabulary.  [run sched (init m d vf ps)]: the interleaving model of C28/LoggerQ.v (the code after
    the repairs c53d854, 4b85524 and aa7ec53) started with level mask m and one program (list of
    (level, text) submit calls) per producer thread, executed under the schedule [sched] (a list
    of thread ids: P i, Cons = the logger's own thread, Stop = the thread calling stop()); every
@@ -13,7 +13,7 @@
    Ghost: [pushed c] all queue pushes so far, in order; [wrote c] the queue elements written so
    far, in file order (the file holds their texts: first clause of c28_order); [q_src x] the
    submit call (producer, call number) an element stems from (None: stop()'s marker);
-   [elems m i 0 p] the elements producer i creates for the calls of p at enabled levels, in call
+   [elems m vf i 0 p] the elements producer i creates for the calls of p at enabled levels, in call
    order; [from i] selects the elements of producer i.
    "ACCEPTED BEFORE stop()" is made precise by [at_stop c]: the value of [pushed] at the step in
    which the stopping thread executed _stopping.request_stop() (theorem c28_at_stop).
@@ -25,42 +25,65 @@ From F8 Require C28.LoggerQOrig C28.OrigWitness C28.LoggerQMid C28.MidWitness.
 Import ListNotations.
 
 (* Order: what is written of one producer is, in order, an initial part of the lines it
-   submitted at enabled levels; the file carries the sequence numbers 1, 2, 3, ... *)
-Theorem c28_order : forall m ps sched i p, nth_error ps i = Some p ->
-  let c := run sched (init m ps) in
-  prefix (filter (from i) (wrote c)) (elems m i 0 p) /\
-  map snd (file c) = map q_text (wrote c) /\
-  map fst (file c) = seq 1 (length (file c)).
+   submitted at enabled levels; a file line holds, behind its number, [line_of d x] (with the
+   direction flag the field " in"/"out" and a blank, then the text of x; otherwise the text) and
+   the numbers are [nums d 0 0 (wrote c)] (see c28_numbering_plain / c28_numbering_direction). *)
+Theorem c28_order : forall m d vf ps sched i p, nth_error ps i = Some p ->
+  let c := run sched (init m d vf ps) in
+  prefix (filter (from i) (wrote c)) (elems m vf i 0 p) /\
+  map snd (file c) = map (line_of d) (wrote c) /\
+  map fst (file c) = nums d 0 0 (wrote c).
 Proof. exact c28_order_lemma. Qed.
 Print Assumptions c28_order.
 
+(* Consecutive sequence numbers, logger WITHOUT the direction flag: the lines carry 1, 2, 3, ...
+   in file order, whatever val they were submitted with (one counter, _sequence). *)
+Theorem c28_numbering_plain : forall m vf ps sched,
+  let c := run sched (init m false vf ps) in
+  map fst (file c) = seq 1 (length (file c)).
+Proof. exact c28_numbering_plain_lemma. Qed.
+Print Assumptions c28_numbering_plain.
+
+(* Consecutive sequence numbers, logger WITH the direction flag: two independent series (counters
+   _sequence / _osequence chosen by val): the numbers of the lines submitted with val <> 0 (marked
+   " in"), in file order, are 1, 2, 3, ..., and so are the numbers of the lines submitted with
+   val = 0 (marked "out").  [stream true b W N] selects from the numbers N those of the elements
+   of W that use _sequence (b = true) resp. _osequence (b = false). *)
+Theorem c28_numbering_direction : forall m vf ps sched,
+  let c := run sched (init m true vf ps) in
+  stream true true (wrote c) (map fst (file c)) = seq 1 (cnt true true (wrote c)) /\
+  stream true false (wrote c) (map fst (file c)) = seq 1 (cnt true false (wrote c)) /\
+  length (file c) = length (wrote c).
+Proof. exact c28_numbering_direction_lemma. Qed.
+Print Assumptions c28_numbering_direction.
+
 (* Levels (and "every written line was submitted"): every written element is call k of some
    producer i, carries exactly the text of that call, and the call's level is enabled. *)
-Theorem c28_levels : forall m ps sched x, In x (wrote (run sched (init m ps))) ->
+Theorem c28_levels : forall m d vf ps sched x, In x (wrote (run sched (init m d vf ps))) ->
   exists i k p lev, q_src x = Some (i, k) /\ nth_error ps i = Some p /\
                     nth_error p k = Some (lev, q_text x) /\ enabled m lev = true.
 Proof. exact c28_levels_lemma. Qed.
 Print Assumptions c28_levels.
 
 (* At most once: no submit call is written twice. *)
-Theorem c28_at_most_once : forall m ps sched,
-  NoDup (map q_src (wrote (run sched (init m ps)))).
+Theorem c28_at_most_once : forall m d vf ps sched,
+  NoDup (map q_src (wrote (run sched (init m d vf ps)))).
 Proof. exact c28_once_lemma. Qed.
 Print Assumptions c28_at_most_once.
 
 (* Return values: every completed submit call returned true -- in particular every call whose
    line was accepted (enabled level) reports success.  (At a disabled level send also returns
    true: "return is_loggable(lev) ? enqueue(...) : true"; the oracle does not judge that.) *)
-Theorem c28_return_exact : forall m ps sched i p, nth_error ps i = Some p ->
-  exists st done, nth_error (prods (run sched (init m ps))) i = Some st /\
+Theorem c28_return_exact : forall m d vf ps sched i p, nth_error ps i = Some p ->
+  exists st done, nth_error (prods (run sched (init m d vf ps))) i = Some st /\
                   p = done ++ todo st /\ rets st = map (fun _ => true) done.
 Proof. exact c28_return_exact_lemma. Qed.
 Print Assumptions c28_return_exact.
 
 (* ... so the oracle's return-value clause holds once the producers have made all their calls. *)
-Theorem c28_return_ok : forall m ps sched,
-  all_done (run sched (init m ps)) = true ->
-  rets_ok m ps (o_rets (observe (run sched (init m ps)))) = true.
+Theorem c28_return_ok : forall m d vf ps sched,
+  all_done (run sched (init m d vf ps)) = true ->
+  rets_ok m ps (o_rets (observe (run sched (init m d vf ps)))) = true.
 Proof. exact c28_return_ok_lemma. Qed.
 Print Assumptions c28_return_ok.
 
@@ -80,8 +103,8 @@ Print Assumptions c28_at_stop.
    [at_stop] in the FIFO, or after a try_pop that found the queue empty with a sample of
    _stopping that was true, i.e. taken after the request: everything pushed before the request
    was pushed before that try_pop, so it has been popped and written. *)
-Theorem c28_all_written : forall m ps, no_marker m ps = true -> forall sched,
-  let c := run sched (init m ps) in
+Theorem c28_all_written : forall m d vf ps, no_marker m ps = true -> forall sched,
+  let c := run sched (init m d vf ps) in
   stopper c = SDone ->
   (forall x, In x (at_stop c) -> In x (wrote c)) /\ NoDup (map q_src (wrote c)).
 Proof. exact c28_all_written_lemma. Qed.
@@ -98,20 +121,20 @@ Theorem c28_stop_window_intermediate_refuted :
     LoggerQMid.at_stop c = [{| LoggerQMid.q_src := Some (O, O); LoggerQMid.q_text := [65%Z] |}] /\
     map LoggerQMid.rets (LoggerQMid.prods c) = [[true]] /\
     LoggerQMid.wrote c = [] /\ LoggerQMid.file c = [] /\
-    file_complete m ps (LoggerQMid.observe c) = false.
+    file_complete false m (fun _ _ => 0%Z) ps (LoggerQMid.observe c) = false.
 Proof. exact MidWitness.c28_stop_window_intermediate_refuted_lemma. Qed.
 Print Assumptions c28_stop_window_intermediate_refuted.
 
 (* stop() called after all producers have made their calls (the situation of the property and
    of the correspondence runs): every line submitted at an enabled level is in the file, in
    order, when stop() has returned. *)
-Theorem c28_all_written_done : forall m ps s1 s2,
+Theorem c28_all_written_done : forall m d vf ps s1 s2,
   no_marker m ps = true ->
-  let c1 := run s1 (init m ps) in
+  let c1 := run s1 (init m d vf ps) in
   stopper c1 = SIdle -> all_done c1 = true ->
   let c2 := run s2 (step c1 Stop) in
   stopper c2 = SDone ->
-  forall i p, nth_error ps i = Some p -> filter (from i) (wrote c2) = elems m i 0 p.
+  forall i p, nth_error ps i = Some p -> filter (from i) (wrote c2) = elems m vf i 0 p.
 Proof. exact c28_all_written_done_lemma. Qed.
 Print Assumptions c28_all_written_done.
 
@@ -119,19 +142,19 @@ Print Assumptions c28_all_written_done.
    levels are pairwise distinct (in the correspondence runs every text carries producer and call
    number), its soundness half (sequence numbers; every file line is the next unwritten line of
    some producer: order, at most once, levels) holds after EVERY schedule ... *)
-Theorem c28_oracle_sound : forall m ps sched,
-  NoDup (concat (map (must_write m) ps)) ->
-  file_sound m ps (observe (run sched (init m ps))) = true.
+Theorem c28_oracle_sound : forall m d vf ps sched,
+  NoDup (concat (must_all d m vf 0 ps)) ->
+  file_sound d m vf ps (observe (run sched (init m d vf ps))) = true.
 Proof. exact c28_oracle_sound_lemma. Qed.
 Print Assumptions c28_oracle_sound.
 
 (* ... and the whole oracle c28_ok (soundness, completeness, return values) holds under the
    hypotheses of c28_all_written_done. *)
-Theorem c28_oracle_ok : forall m ps s1 s2,
-  NoDup (concat (map (must_write m) ps)) -> no_marker m ps = true ->
-  stopper (run s1 (init m ps)) = SIdle -> all_done (run s1 (init m ps)) = true ->
-  stopper (run s2 (step (run s1 (init m ps)) Stop)) = SDone ->
-  c28_ok m ps (observe (run s2 (step (run s1 (init m ps)) Stop))) = true.
+Theorem c28_oracle_ok : forall m d vf ps s1 s2,
+  NoDup (concat (must_all d m vf 0 ps)) -> no_marker m ps = true ->
+  stopper (run s1 (init m d vf ps)) = SIdle -> all_done (run s1 (init m d vf ps)) = true ->
+  stopper (run s2 (step (run s1 (init m d vf ps)) Stop)) = SDone ->
+  c28_ok d m vf ps (observe (run s2 (step (run s1 (init m d vf ps)) Stop))) = true.
 Proof. exact c28_oracle_ok_lemma. Qed.
 Print Assumptions c28_oracle_ok.
 
@@ -139,8 +162,8 @@ Print Assumptions c28_oracle_ok.
    nothing behind it is written, even if stop() is called only after waiting for the queue. *)
 Theorem c28_empty_line_refuted :
   exists m ps,
-    let o := run_case m [] ps in
-    o_stopped o = true /\ o_file o = [(1%nat, [65%Z])] /\ file_complete m ps o = false.
+    let o := run_case m false (fun _ _ => 0%Z) [] ps in
+    o_stopped o = true /\ o_file o = [(1%nat, [65%Z])] /\ file_complete false m (fun _ _ => 0%Z) ps o = false.
 Proof. exact c28_empty_line_refuted_lemma. Qed.
 Print Assumptions c28_empty_line_refuted.
 
@@ -155,7 +178,7 @@ Theorem c28_lost_lines_orig_refuted :
     LoggerQOrig.pushed c = [{| LoggerQOrig.q_src := Some (O, O); LoggerQOrig.q_text := [65%Z] |};
                             {| LoggerQOrig.q_src := None; LoggerQOrig.q_text := [] |}] /\
     LoggerQOrig.file c = [] /\
-    file_complete m ps (LoggerQOrig.observe c) = false.
+    file_complete false m (fun _ _ => 0%Z) ps (LoggerQOrig.observe c) = false.
 Proof. exact OrigWitness.c28_lost_lines_orig_refuted_lemma. Qed.
 Print Assumptions c28_lost_lines_orig_refuted.
 
@@ -164,7 +187,7 @@ Print Assumptions c28_lost_lines_orig_refuted.
 Theorem c28_return_orig_refuted :
   exists m ps sched,
     let o := LoggerQOrig.observe (LoggerQOrig.run sched (LoggerQOrig.init m ps)) in
-    file_sound m ps o = true /\ file_complete m ps o = true /\
+    file_sound false m (fun _ _ => 0%Z) ps o = true /\ file_complete false m (fun _ _ => 0%Z) ps o = true /\
     o_rets o = [[false]] /\ rets_ok m ps (o_rets o) = false.
 Proof. exact OrigWitness.c28_return_orig_refuted_lemma. Qed.
 Print Assumptions c28_return_orig_refuted.
@@ -174,12 +197,29 @@ Print Assumptions c28_return_orig_refuted.
    c28_all_written_done / c28_oracle_ok hold, the four lines are in the file, the oracle accepts. *)
 Theorem c28_nonvacuous :
   no_marker 18 nv_ps = true /\
-  let c1 := run [P 1; P 0; P 1; P 0; P 0] (init 18 nv_ps) in
+  let c1 := run [P 1; P 0; P 1; P 0; P 0] (init 18 false (fun _ _ => 0%Z) nv_ps) in
   stopper c1 = SIdle /\ all_done c1 = true /\ length (queue c1) = 4%nat /\
   let c2 := run (Stop :: repeat Cons 15 ++ [Stop; Stop]) (step c1 Stop) in
   stopper c2 = SDone /\
   file c2 = [(1%nat, [68%Z]); (2%nat, [65%Z]); (3%nat, [69%Z]); (4%nat, [67%Z])] /\
   map rets (prods c2) = [[true; true; true]; [true; true]] /\
-  c28_ok 18 nv_ps (observe c2) = true.
+  c28_ok false 18 (fun _ _ => 0%Z) nv_ps (observe c2) = true.
 Proof. exact c28_nonvacuous_lemma. Qed.
 Print Assumptions c28_nonvacuous.
+
+(* Non-vacuity of the numbering theorems: the same programs with val arguments 0, 1, 2 mixed, run
+   with the direction flag (two series 1,2 / 1,2, lines marked " in"/"out") and without it (one
+   series 1..4); the oracle accepts both and rejects two-series numbers when the flag is not set. *)
+Theorem c28_nonvacuous_direction :
+  (let o := run_case 18 true nv_vf [1; 0; 1; 0]%nat nv_ps in
+   o_file o = [(1%nat, [32; 105; 110; 32; 68]%Z); (1%nat, [111; 117; 116; 32; 65]%Z);
+               (2%nat, [111; 117; 116; 32; 69]%Z); (2%nat, [32; 105; 110; 32; 67]%Z)] /\
+   c28_ok true 18 nv_vf nv_ps o = true) /\
+  (let o := run_case 18 false nv_vf [1; 0; 1; 0]%nat nv_ps in
+   o_file o = [(1%nat, [68%Z]); (2%nat, [65%Z]); (3%nat, [69%Z]); (4%nat, [67%Z])] /\
+   c28_ok false 18 nv_vf nv_ps o = true) /\
+  c28_ok false 18 nv_vf nv_ps
+    {| o_rets := [[true; true; true]; [true; true]];
+       o_file := [(1%nat, [68%Z]); (1%nat, [65%Z]); (2%nat, [69%Z]); (2%nat, [67%Z])]; o_stopped := true |} = false.
+Proof. exact c28_nonvacuous_direction_lemma. Qed.
+Print Assumptions c28_nonvacuous_direction.
